@@ -16,8 +16,18 @@ SOURCES = ('inline', 'dict', 'struct', 'hdf5')
 
 
 @st.composite
-def strategy(draw):
-    plain = draw(st.integers(0, 2)) == 0
+def strategy(draw, cls=None):
+    if cls == 'permuted-exact':
+        # one frame; the structured array has exactly the frame's fields, under the channels' own names, in another order
+        prof = Profile(vrl=[256, 8192], max_frames=1, max_channels=4, max_rows=16, max_width=3, casts=True,
+                       layouts=('C', 'ro'), units=False, sources=('struct',), chunks=True, windows=True, upper_names=True)
+        spec = draw(file_specs(prof))
+        spec['write'].pop('source', None)
+        spec['write'].pop('ocs', None)
+        spec['opts'] = {'perm': draw(st.sampled_from(['rev', 'rot'])), 'extra': []}
+        spec['permuted_exact'] = True
+        return spec
+    plain = cls in ('plain', 'crossed') or (cls is None and draw(st.integers(0, 2)) == 0)
     if plain:
         # a structured array whose dtype coincides with the frame's: the direct-slice path of the numpy wrapper
         prof = Profile(vrl=[256, 8192], max_frames=1, max_channels=4, max_rows=16, max_width=5, casts=False,
@@ -35,7 +45,7 @@ def strategy(draw):
         spec['plain'] = True
         ops = spec['lfs'][0]['ops']
         chans = [j for j, op in enumerate(ops) if op['t'] == 'channel']
-        if len(chans) >= 2 and draw(st.booleans()):
+        if len(chans) >= 2 and (cls == 'crossed' or (cls is None and draw(st.booleans()))):
             # two channels whose dataset names are each other's channel names; the structured array lists its fields in
             # the order of the frame's channel names, so its dtype still coincides with the frame's
             a, b = chans[0], chans[1]
@@ -88,7 +98,9 @@ class C11(Property):
 
     def searches(self, ctx):
         n = 1600 if ctx.tier == 'quick' else 16000
-        return [('routes', strategy(), n // ctx.nshards)]
+        from vf.core import stratified
+        return [('routes', strategy(), (n * 5 // 8) // ctx.nshards)] + \
+            stratified('class', lambda c: strategy(c), ['plain', 'crossed', 'permuted-exact'], n * 3 // 8, ctx)
 
     def run(self, spec, ctx):
         dw.check_import_location()
@@ -96,6 +108,7 @@ class C11(Property):
         opts = spec.pop('opts', {})
         plain = spec.pop('plain', False)
         crossed = spec.pop('crossed', False)
+        permuted_exact = spec.pop('permuted_exact', False)
         w = spec['write']
         window = bool(w.get('from')) or w.get('to') is not None
         labels = ['window' if window else 'no-window']
@@ -103,6 +116,8 @@ class C11(Property):
             labels.append('struct-dtype-coincides')
         if crossed:
             labels.append('crossed-dataset-names')
+        if permuted_exact:
+            labels.append('exactly-the-frames-fields-permuted')
         if w.get('from'):
             labels.append('from>0')
         if opts.get('perm'):
